@@ -296,13 +296,13 @@ PROPS["C17"] = dict(
     ),
     rule=("a case is one seeded history (2-40 steps) against one dispatcher kind: functor_dispatcher over basic_dispatcher (1, 2, 3 arguments; dynamic and static casting) with insert/overwrite/erase/dispatch, "
           "functor_dispatcher over basic_fast_dispatcher (1, 2, 3 arguments) with insert/overwrite/dispatch (per-class indices reset at the start of every run, one fast dispatcher per hierarchy), "
-          "static_dispatcher (antisymmetric and symmetric, a type list that omits one class so that on_error is reachable), acyclic visitors (default and throwing catch-all, visitors implementing subsets, const and non-const) and cyclic visitors. "
+          "static_dispatcher (antisymmetric and symmetric, a type list that omits one class so that on_error is reachable; also with an explicitly different right-hand type list, and over two different hierarchies with base_rhs given), acyclic visitors (default and throwing catch-all, visitors implementing subsets, const and non-const) and cyclic visitors. "
           "The hierarchy has four concrete classes, one derived from another. Handlers record their id, the addresses of the arguments they receive in order and the address of the undispatched extra argument. "
           "A dispatch must invoke exactly the handler the model holds for the tuple of dynamic types with exactly the caller's objects (swapped only under symmetric dispatch) and the extra argument itself, "
           "or - when never registered, erased, or only another permutation is registered - report an error and run no handler. "
           "Non-trivial: at least two state-changing steps (registrations, erasures or successful dispatches). Distinct: distinct run digests."),
     probes=["dispatch_to_registered_tuple", "dispatch_to_unregistered_tuple", "only_other_permutation_registered", "registered_handler_erased", "handler_overwritten",
-            "three_argument_dispatch", "symmetric_swap_taken", "static_dispatch_on_error", "visit_dispatched", "const_visit_dispatched", "catch_all_taken",
+            "three_argument_dispatch", "symmetric_swap_taken", "static_dispatch_on_error", "static_dispatch_two_hierarchies", "visit_dispatched", "const_visit_dispatched", "catch_all_taken",
             "derived_visited_by_visitor_of_base_only", "cyclic_visit_dispatched"],
     components=dict(real=["include/xtl/xmultimethods.hpp (static_dispatcher, basic_dispatcher, basic_fast_dispatcher, functor_dispatcher, casters)", "include/xtl/xvisitor.hpp (acyclic and cyclic visitors, catch-all policies)"],
                     stub=["recording handlers, executors and visitors", "model map from type tuple to handler id", "class hierarchy of four concrete classes"]),
